@@ -174,7 +174,11 @@ func (w *walker) inlineTarget(st *pstate, call *ssa.Call) *ssa.Function {
 			return nil
 		}
 	}
-	if w.an.isRecursive(f) {
+	if w.an.Mode == 1 {
+		if w.an.isRecursiveAmongNew(f) {
+			return nil
+		}
+	} else if w.an.isRecursive(f) {
 		return nil
 	}
 	switch w.an.Mode {
@@ -1344,6 +1348,9 @@ func (w *walker) callEvent(st *pstate, c *ssa.CallCommon, in ssa.Instruction, ki
 		if ev.Name == "builtin.len" && len(ev.Args) == 1 && ev.Args[0].Op == "mkslice" {
 			ev.Res = ev.Args[0].Args[0]
 		}
+	case ev.Name == "builtin.copy" && len(ev.Args) == 2 && knownLen(ev.Args[0]) != nil && knownLen(ev.Args[1]) != nil && ToPoly(knownLen(ev.Args[0])).Equal(ToPoly(knownLen(ev.Args[1]))):
+		// copy returns min(len(dst), len(src)); when the two are the same expression that is the count
+		ev.Res = knownLen(ev.Args[1])
 	case ev.Name == "builtin.append" || ev.Name == "builtin.min" || ev.Name == "builtin.max":
 		ev.Res = &Term{Op: "builtin", Sym: strings.TrimPrefix(ev.Name, "builtin."), Args: ev.Args, Typ: resTyp, Val: valueOf(in)}
 	default:
@@ -1586,6 +1593,45 @@ func boundTarget(f *ssa.Function) *ssa.Function {
 				}
 				return sc
 			}
+		}
+	}
+	return nil
+}
+
+// knownLen: the length of a slice-valued term as an integer term (nil when it is not a slice).
+func knownLen(t *Term) *Term {
+	if t == nil {
+		return nil
+	}
+	intT := types.Typ[types.Int]
+	switch t.Op {
+	case "mkslice":
+		return t.Args[0]
+	case "slice":
+		if len(t.Args) < 3 {
+			return nil
+		}
+		var hi *Term
+		if t.Args[2].Op == "none" {
+			hi = knownLen(t.Args[0])
+		} else {
+			hi = t.Args[2]
+		}
+		if hi == nil {
+			return nil
+		}
+		if t.Args[1].Op == "none" {
+			return hi
+		}
+		return &Term{Op: "bin", Sym: "-", Args: []*Term{hi, t.Args[1]}, Typ: intT}
+	}
+	if t.Typ != nil {
+		if _, ok := t.Typ.Underlying().(*types.Slice); ok {
+			return &Term{Op: "builtin", Sym: "len", Args: []*Term{t}, Typ: intT}
+		}
+		if tp, ok := t.Typ.(*types.TypeParam); ok {
+			_ = tp
+			return &Term{Op: "builtin", Sym: "len", Args: []*Term{t}, Typ: intT}
 		}
 	}
 	return nil
